@@ -14,6 +14,7 @@ import AsModel.Temporaries
 import AsModel.RustPrims
 import AsModel.Exec
 import AsModel.Effects
+import AsModel.RuntimeItems
 import AsModel.WiringResolve
 /-!
 Line-protocol driver: one request per stdin line, one answer per stdout line.
@@ -127,6 +128,18 @@ def answerTab (fields : List String) : String :=
         | some es => "[" ++ ",".intercalate (es.map showEntry) ++ "]"
       if sh a == sh b then "same " ++ (if a.isSome then "ok" else "illtyped") else s!"diff spec={sh a} exec={sh b}"
     | _, _, _ => "bad-op"
+  -- items <AST> <value tokens>: the runtime items the table says the expansion names vs the ones its rendered tokens name
+  | ["items", ast, value] =>
+    match (SExp.parse ast).bind readPat, (SExp.parse value).bind readToks with
+    | some p, some v =>
+      if p.expandPanics then "panic"
+      else
+        let x := expand p
+        let d := x.declaredItems
+        let s := x.scannedItems v
+        let same := d.all s.contains && s.all d.contains
+        s!"{if same then "same" else "diff"}\t{",".intercalate d}\t{",".intercalate s}\t{",".intercalate (dedupS x.body.kinds)}"
+    | _, _ => "bad-op"
   -- evalcost <AST> <value> <meanings> <hex method name | ->: the tally of the model's run (`runT`, Effects.lean):
   --   ok <entries> <calls of that method (of every method for `-`)> <index operations> <awaits> <Debug calls> <root evaluations>
   -- root evaluations: `let __assert_struct_value = &(expr);` is emitted iff the assertion code is not empty
